@@ -1,0 +1,157 @@
+//go:build verif
+
+package mailbox
+
+import (
+	"crypto/sha256"
+	"encoding/binary"
+	"net"
+	"sync/atomic"
+	"time"
+
+	"github.com/btcsuite/btcd/btcec/v2"
+	"github.com/lightninglabs/lightning-node-connect/hashmailrpc"
+)
+
+// VerifSinkFunc is the signature of the verification trace sink.
+type VerifSinkFunc func(src any, ev string, kv ...int)
+
+var verifSink atomic.Pointer[VerifSinkFunc]
+
+// SetVerifSink installs (or, with nil, removes) the verification trace sink.
+func SetVerifSink(f VerifSinkFunc) {
+	if f == nil {
+		verifSink.Store(nil)
+		return
+	}
+	verifSink.Store(&f)
+}
+
+func vtrace(src any, ev string, kv ...int) {
+	if f := verifSink.Load(); f != nil {
+		(*f)(src, ev, kv...)
+	}
+}
+
+// vtraceCipher reports a cipher state about to be used: a 32-bit fingerprint
+// of its key and its nonce.
+func vtraceCipher(c *cipherState, ev string) {
+	if f := verifSink.Load(); f != nil {
+		h := sha256.Sum256(c.secretKey[:])
+		(*f)(c, ev, int(binary.BigEndian.Uint32(h[:4])), int(c.nonce))
+	}
+}
+
+// VerifMachineState is a snapshot of a Machine's negotiated state.
+type VerifMachineState struct {
+	Version      byte
+	SendKey      [32]byte
+	RecvKey      [32]byte
+	SendNonce    uint64
+	RecvNonce    uint64
+	RemoteStatic *btcec.PublicKey
+	Payload      []byte
+	PendingHdr   int
+	PendingBody  int
+}
+
+// VerifState returns the Machine's negotiated version, traffic keys, nonces,
+// remote static key, received payload and pending (unflushed) byte counts.
+func (b *Machine) VerifState() VerifMachineState {
+	return VerifMachineState{
+		Version:      b.version,
+		SendKey:      b.sendCipher.secretKey,
+		RecvKey:      b.recvCipher.secretKey,
+		SendNonce:    b.sendCipher.nonce,
+		RecvNonce:    b.recvCipher.nonce,
+		RemoteStatic: b.remoteStatic,
+		Payload:      b.receivedPayload,
+		PendingHdr:   len(b.nextHeaderSend),
+		PendingBody:  len(b.nextBodySend),
+	}
+}
+
+// VerifCipherIDs returns the identities under which the send and receive
+// cipher states report their events.
+func (b *Machine) VerifCipherIDs() (any, any) {
+	return &b.sendCipher, &b.recvCipher
+}
+
+// VerifMachine returns the noise machine of a NoiseGrpcConn.
+func (c *NoiseGrpcConn) VerifMachine() *Machine { return c.noise }
+
+// NewVerifNoiseConn wraps an established Machine and a net.Conn into a
+// NoiseConn (the TCP variant of the secured connection).
+func NewVerifNoiseConn(conn net.Conn, m *Machine) *NoiseConn {
+	return &NoiseConn{conn: conn, noise: m}
+}
+
+// VerifControlConn is the exported form of the controlConn interface.
+type VerifControlConn interface {
+	ReceiveControlMsg(ControlMsg) error
+	SendControlMsg(ControlMsg) error
+	SetRecvTimeout(timeout time.Duration)
+	SetSendTimeout(timeout time.Duration)
+}
+
+// VerifConnKit is a stand-alone connKit over the given control connection.
+type VerifConnKit struct{ k *connKit }
+
+// NewVerifConnKit creates a connKit whose control messages go through impl.
+func NewVerifConnKit(impl VerifControlConn) *VerifConnKit {
+	return &VerifConnKit{k: &connKit{impl: impl}}
+}
+
+func (v *VerifConnKit) Read(b []byte) (int, error)  { return v.k.Read(b) }
+func (v *VerifConnKit) Write(b []byte) (int, error) { return v.k.Write(b) }
+
+// VerifStripJSONWrapper exposes stripJSONWrapper.
+func VerifStripJSONWrapper(s string) (string, error) { return stripJSONWrapper(s) }
+
+// VerifUnmarshalCipherBox runs the websocket transport's envelope handling on
+// a raw websocket message: strip the JSON wrapper, unmarshal the CipherBox.
+func VerifUnmarshalCipherBox(msg []byte) ([]byte, error) {
+	unwrapped, err := stripJSONWrapper(string(msg))
+	if err != nil {
+		return nil, err
+	}
+	box := &hashmailrpc.CipherBox{}
+	if err := defaultMarshaler.Unmarshal([]byte(unwrapped), box); err != nil {
+		return nil, err
+	}
+	return box.Msg, nil
+}
+
+// NewVerifServer is NewServer with the hashmail client given directly (the
+// harness's in-process relay) instead of dialled over gRPC.
+func NewVerifServer(serverHost string, connData *ConnData,
+	client hashmailrpc.HashMailClient,
+	onNewStatus func(status ServerStatus)) (*Server, error) {
+
+	sid, err := connData.SID()
+	if err != nil {
+		return nil, err
+	}
+	s := &Server{
+		serverHost:  serverHost,
+		client:      client,
+		connData:    connData,
+		sid:         sid,
+		onNewStatus: onNewStatus,
+		log:         log.WithPrefix("(server)"),
+		quit:        make(chan struct{}),
+	}
+	s.ctx, s.cancel = contextWithCancel()
+	return s, nil
+}
+
+// WithVerifHashMailClient sets the Client's hashmail client directly.
+func WithVerifHashMailClient(c hashmailrpc.HashMailClient) ClientOption {
+	return func(client *Client) { client.grpcClient = c }
+}
+
+// VerifSIDs returns the receive and send stream ids of the connection.
+func (c *ClientConn) VerifSIDs() ([64]byte, [64]byte) { return c.receiveSID, c.sendSID }
+
+// VerifSIDs returns the receive and send stream ids of the connection.
+func (c *ServerConn) VerifSIDs() ([64]byte, [64]byte) { return c.receiveSID, c.sendSID }
